@@ -55,9 +55,13 @@ def main():
         if ctx.failing_inputs:
             for f in ctx.failing_inputs:
                 res.violation(f["what"], f, True)
+            ncorr = 0
             for b in broken:
-                if b["kind"] != "correspondence":
-                    res.violation(b["what"], dict(broken=[b]), False)
+                if b["kind"] == "correspondence":
+                    ncorr += 1
+                    if ncorr > 3:
+                        continue
+                res.violation(b["what"], dict(broken=[b]), False)
         elif broken:
             found = []
             if hasattr(mod, "search"):
